@@ -615,7 +615,7 @@ func (f *DefaultFanController) computePwmMap() (err error) {
 	}
 
 	savedPwmMap, err := f.persistence.LoadFanPwmMap(f.fan.GetId())
-	if err == nil && f.pwmMap != nil {
+	if err == nil && savedPwmMap != nil {
 		ui.Info("FanController: Using saved value for pwm map of Fan '%s'", f.fan.GetId())
 		f.pwmMap = savedPwmMap
 		return nil
